@@ -139,9 +139,21 @@ Fixpoint parse_query (fuel : nat) (ts : list tok) : option (query * list tok) :=
       end
   end.
 
-(* the whole token list is one query *)
-Definition parse_tokens (ts : list tok) : option query :=
+(* the parser looks at the kind of every token, and at the text only of attribute
+   names, literals and (and / or) of LOGICAL_OPERATOR: [norm] forgets the rest *)
+Definition t_and : text := [97; 110; 100]%N.
+Definition norm (t : tok) : tok :=
+  match fst t with
+  | K_ATTRNAME | K_BOOLEAN | K_VERSION | K_STRING | K_DOUBLE | K_INT | K_EXP => t
+  | K_LOGICAL_OPERATOR => (K_LOGICAL_OPERATOR, if is_or (snd t) then t_or else t_and)
+  | k => (k, [])
+  end.
+
+Definition parse_core (ts : list tok) : option query :=
   match parse_query (S (length ts)) ts with
   | Some (q, []) => Some q
   | _ => None
   end.
+
+(* the whole token list is one query *)
+Definition parse_tokens (ts : list tok) : option query := parse_core (map norm ts).
